@@ -10,19 +10,22 @@
 // over a second one, unicast time-out 15 s < broadcast time-out 90 s (as in t-vss / t-astc), fresh 160/96-bit group.
 //
 // Enumerated per protocol: (n,t) in {(2,0),(3,0),(4,0),(5,0),(4,1),(5,1)} (quick) plus (6,1),(7,2) (thorough; 3t < n)
-//   x [pvss: every dealer x secret in {random, 0, 1, q-1}]
-//   x EVERY set F of at most t faulty parties x one deviation per faulty party (c15_common.hh: B W Q N D C c M):
-//     |F| = 1: the complete menu — every steering of the library's own switch (all coin vectors, or all with at most
-//              one coin differing from a constant vector when there are more than 4 coins), wrong / out-of-range /
-//              negative share in every private message to every recipient, all private messages to one recipient
-//              dropped, crash at EVERY application event, crash inside every own broadcast after the first r-send
-//              (thorough, n <= 5: after every r-send), every own broadcast replaced in four ways;  the alphabet is
-//              measured on the fault-free reference run of the same seed, whose prefix a faulty run shares.
-//              quick tier: same menu without N and c and with only two payload replacements.
-//     |F| = 2: (n=7) every pair x the cross product of a reduced menu per party (pair_menu below).
+//   x [pvss: every dealer x secret in {random, 0, 1, q-1}]  (t = 0: three seeds, no faulty party is admissible)
+//   x EVERY set F of at most t faulty parties x one deviation per faulty party (c15_common.hh: B W Q N D C c M I J).
+//     The alphabet of a party (private messages per recipient, own broadcasts, application events) is measured on the
+//     fault-free reference run of the same seed, whose prefix a faulty run shares.
+//     |F| = 1: a menu of level full / lean / core / mini (single_menu, level_for below; the table is repeated in
+//              props/C15.json): full = every steering of the library's own switch (all coin vectors, or all with at
+//              most one coin differing from a constant vector when there are more than 4 coins), wrong / out-of-range /
+//              negative share in EVERY private message to EVERY recipient, every private link dropped, crash at EVERY
+//              application event and after every r-send of every own broadcast, every own broadcast replaced in four
+//              ways, every value 0..n resp. every complaint triple inserted before every own broadcast.
+//     |F| = 2: (n=7) every pair x the cross product of a reduced menu per party (pair_menu below; for the dealer based
+//              sharing only with dealers 0, 3, 6).
 //   Schedules: round robin; thorough adds reverse round robin and a seeded pseudo-random baton order for (4,1), core menu.
-// Oracle (parent, GMP only; deviating parties are excluded, honest ones never): every honest party succeeds; equal QUAL
-//   containing all honest parties; equal commitments and public key y; g^x_i h^x'_i = prod_{j in QUAL} prod_k
+// Oracle (parent, GMP only; deviating parties are excluded, honest ones never; judged are the honest parties whose call
+//   returned true — if some honest party fails while another succeeds with a QUAL containing it, that is a violation,
+//   runs in which no honest party obtains a result are counted only): equal QUAL; equal commitments and public key y; g^x_i h^x'_i = prod_{j in QUAL} prod_k
 //   C_jk^{(i+1)^k}; g^x_i = v_i (GJKR); EVERY (t+1)-subset of the honest shares interpolates (own Lagrange code,
 //   abscissae i+1) to one pair (x,x') that opens prod C_j0, with g^x = y (DKGs), x = x' = 0 (ZVSS), x = the dealer's
 //   secret and = what Reconstruct returns at every honest party (VSS; for a faulty dealer: honest parties agree on
@@ -179,6 +182,7 @@ struct CdkgProto : Proto {
 		v.C.clear();
 		for (int j = 0; j < cfg.n; j++) v.C.push_back(copy_row(d[i]->x_rvss->C_ik[j]));
 		v.has_y = true, v.y = Mpz(d[i]->y);
+		v.has_fqual = true, v.fqual = d[i]->QUAL;      // QUAL of the DKG object: after step 3 resp. of the zero sharing
 	}
 	void after_phase(int ph, int i) override
 	{
@@ -229,6 +233,12 @@ struct CdkgProto : Proto {
 		//               outside x_rvss->QUAL; where the old commitments of such a party are invertible the harness
 		//               also confirms that adding its zero-sharing commitments C_new/C_old repairs the relation
 		bool erased = false, requalified = false, gen_key_bad = false;
+		int first_ok0 = -1, first_ok1 = -1;
+		for (size_t a = 0; a < H.size(); a++)
+		{
+			if (v0[a].ret && first_ok0 < 0) first_ok0 = H[a];
+			if (v1[a].ret && first_ok1 < 0) first_ok1 = H[a];
+		}
 		for (size_t a = 0; a < H.size(); a++)
 		{
 			if (v0[a].ret && snap_qual[H[a]] != v0[a].qual)
@@ -277,14 +287,14 @@ struct CdkgProto : Proto {
 			{
 				gen_key_bad = true;
 				v.key = "cdkg.gen/erased-party-contribution";
-				v.what += "; cause: a party qualified in the sharing of x was erased from QUAL in step 3 (x_rvss QUAL " + set_str(v0[0].qual) + ", final QUAL " + set_str(snap_qual[H[0]]) + "): its contribution stays in every x_i but y leaves out its A_j";
+				v.what += "; cause: a party qualified in the sharing of x was erased from QUAL in step 3 (x_rvss QUAL " + set_str(v0[0].qual) + ", final QUAL " + set_str(snap_qual[first_ok0 >= 0 ? first_ok0 : H[0]]) + "): its contribution stays in every x_i but y leaves out its A_j";
 			}
 			else if (v.key == "cdkg.refresh/secret-vs-key" && gen_key_bad)
 				continue;       // same defect seen again after the refresh
 			else if (v.key == "cdkg.refresh/share-vs-commitments" && requalified)
 			{
 				v.key = "cdkg.refresh/requalified-party-commitments";
-				v.what += "; cause: a party outside x_rvss->QUAL " + set_str(v1[0].qual) + " was qualified in the zero sharing (QUAL " + set_str(q1[H[0]]) + "): its zero shares were added to x_i, its commitments are not part of the verification value";
+				v.what += "; cause: a party outside x_rvss->QUAL " + set_str(v1[0].qual) + " was qualified in the zero sharing (QUAL " + set_str(q1[first_ok1 >= 0 ? first_ok1 : H[0]]) + "): its zero shares were added to x_i, its commitments are not part of the verification value";
 			}
 			keep.push_back(v);
 		}
@@ -388,7 +398,7 @@ struct PvssProto : Proto {
 			if (mpz_cmp(lhs, rhs))
 			{
 				if (complainers.count(Sx[a]))
-					W->viol("pvss/complainer-skips-resolution", "honest party " + str(Sx[a]) + " complained about its share, the dealer " + str(dl) + " published a valid one and was accepted by everybody, but the complainer never reads that answer: it keeps the invalid share (g^sigma_i h^tau_i != prod_k A_k^{(i+1)^k}) and returns true");
+					W->viol("pvss/complainer-skips-resolution", "honest party " + str(Sx[a]) + " complained about its share, the dealer " + str(dl) + " was accepted by everybody (so it published a valid one), but the complainer does not hold that share afterwards: g^sigma_i h^tau_i != prod_k A_k^{(i+1)^k} and Share returned true");
 				else
 					W->viol("pvss/share-vs-commitments", "g^sigma_i h^tau_i of honest party " + str(Sx[a]) + " differs from prod_k A_k^{(i+1)^k} although the dealer " + str(dl) + " was accepted");
 				bad_share = true;
